@@ -168,6 +168,7 @@ Definition nodes_set (f : Z -> list Z) (i : Z) (l : list Z) : Z -> list Z :=
 Section Sim.
   Variable c : cfg.
   Hypothesis Hcap : 0 < cap c.
+  Hypothesis Hnb : 0 < hsz c.
 
   Record Abs (s : st) (b : bl) (nodes : Z -> list Z) (fl : list Z) : Prop := {
     A_ha : lenZ (ha s) = hsz c;
@@ -184,7 +185,7 @@ Section Sim.
     A_cnt : lenZ fl = cap c - len s }.
 
   Lemma bucket_range h : 0 <= bucket c h < hsz c.
-  Proof. unfold bucket. apply Z.mod_pos_bound. unfold hsz. lia. Qed.
+  Proof. unfold bucket. apply Z.mod_pos_bound. exact Hnb. Qed.
 
   Lemma abs_fuel s b nodes fl i : Abs s b nodes fl -> 0 <= i < hsz c -> (length (nodes i) < fuel_of c)%nat.
   Proof.
@@ -327,6 +328,7 @@ Qed.
 Section Step.
   Variable c : cfg.
   Hypothesis Hcap : 0 < cap c.
+  Hypothesis Hnb : 0 < hsz c.
 
   Lemma abs_step s b nodes fl o : Abs c s b nodes fl ->
     exists nodes' fl', snd (step c s o) = snd (bl_step c b o) /\
@@ -335,7 +337,7 @@ Section Step.
     intros HA. pose proof (A_len _ _ _ _ _ HA) as Hlen.
     destruct o as [k h | k h | k h |]; cbn [step bl_step].
     - (* Add *)
-      pose proof (bucket_range c Hcap h) as Hi. set (i := bucket c h) in *.
+      pose proof (bucket_range c Hnb h) as Hi. set (i := bucket c h) in *.
       rewrite Hlen. destruct (cap c <=? bn b) eqn:Efull; [exists nodes, fl; split; [reflexivity | exact HA]|].
       destruct (negb (validate c k)); [exists nodes, fl; split; [reflexivity | exact HA]|].
       rewrite (abs_exist c Hcap _ _ _ _ i k HA Hi).
@@ -347,7 +349,7 @@ Section Step.
       + cbn [ha nxt free len slots fst snd]. eexists _, fl'. split; [reflexivity | exact HA'].
       + cbn [fst snd]. rewrite (refused_state_same s Hf2). exists nodes, fl. split; [reflexivity | exact HA].
     - (* Remove *)
-      pose proof (bucket_range c Hcap h) as Hi. set (i := bucket c h) in *.
+      pose proof (bucket_range c Hnb h) as Hi. set (i := bucket c h) in *.
       destruct (negb (validate c k)); [exists nodes, fl; split; [reflexivity | exact HA]|].
       pose proof (A_ch _ _ _ _ _ HA i Hi) as Hch. pose proof (A_keys _ _ _ _ _ HA i Hi) as Hk.
       pose proof (A_ndn _ _ _ _ _ HA i Hi) as Hnd.
@@ -409,7 +411,7 @@ Section Step.
           -- rewrite (Hno eq_refl). rewrite set_ha_same; [|pose proof (A_ha _ _ _ _ _ HA); lia].
              exists nodes, fl. split; [reflexivity | exact HA].
     - (* Exist *)
-      pose proof (bucket_range c Hcap h) as Hi.
+      pose proof (bucket_range c Hnb h) as Hi.
       destruct (negb (validate c k)); [exists nodes, fl; split; [reflexivity | exact HA]|].
       rewrite (abs_exist c Hcap _ _ _ _ _ k HA Hi).
       exists nodes, fl. split; [reflexivity | exact HA].
@@ -452,13 +454,13 @@ Proof.
   - rewrite app_nth1; [|rewrite zseq_length; lia]. rewrite nth_zseq by lia. lia.
 Qed.
 
-Lemma abs_init c : 0 < cap c -> Abs c (init c) bl_init (fun _ => []) (zseq 0 (Z.to_nat (cap c))).
+Lemma abs_init c : 0 < cap c -> 0 < hsz c -> Abs c (init c) bl_init (fun _ => []) (zseq 0 (Z.to_nat (cap c))).
 Proof.
-  intros Hcap. set (N := Z.to_nat (cap c)). assert (HN : (0 < N)%nat) by lia.
+  intros Hcap Hnb. set (N := Z.to_nat (cap c)). assert (HN : (0 < N)%nat) by lia.
   assert (Hnx : lenZ (zseq 1 (N - 1) ++ [-1]) = cap c).
   { unfold lenZ. rewrite app_length, zseq_length. simpl. lia. }
   constructor; unfold init; cbn [ha nxt free len slots bl_init bk bn]; fold N.
-  - unfold lenZ. rewrite repeat_length. unfold hsz. lia.
+  - unfold lenZ. rewrite repeat_length. lia.
   - exact Hnx.
   - unfold lenZ. rewrite repeat_length. lia.
   - intros i _. rewrite getZ_repeat. constructor.
@@ -474,13 +476,14 @@ Proof.
 Qed.
 
 (* (A) simulates (B) on every history, whatever the hash column *)
-Theorem array_refines_bl : forall c ops, 0 < cap c -> snd (run_ops c (init c) ops) = bl_run c bl_init ops.
-Proof. intros c ops Hc. eapply abs_run; [exact Hc | apply abs_init; exact Hc]. Qed.
+Theorem array_refines_bl : forall c ops,
+  0 < cap c -> 0 < hsz c -> snd (run_ops c (init c) ops) = bl_run c bl_init ops.
+Proof. intros c ops Hc Hn. eapply abs_run; [exact Hc | exact Hn | apply abs_init; assumption]. Qed.
 
 (* (A) refines (S): the Go arrays behave as a bounded mathematical set, for every hash function *)
 Theorem array_refines_set : forall (hash : key -> Z) c ops,
-  0 < cap c -> Forall (consistent hash) ops -> snd (run_ops c (init c) ops) = sp_run c [] ops.
-Proof. intros hash c ops Hc Hh. rewrite (array_refines_bl c ops Hc). apply (bl_refines_set hash). exact Hh. Qed.
+  0 < cap c -> 0 < hsz c -> Forall (consistent hash) ops -> snd (run_ops c (init c) ops) = sp_run c [] ops.
+Proof. intros hash c ops Hc Hn Hh. rewrite (array_refines_bl c ops Hc Hn). apply (bl_refines_set hash). exact Hh. Qed.
 
 (* the executable representation invariant / abstraction check can never fail either (its observation part) *)
 From Bfe Require Import run.RunC20.
@@ -570,10 +573,11 @@ Qed.
 Theorem set_prop_of_model : forall v c ops (hash : key -> Z),
   dec_input v = Some (c, ops) -> Forall (consistent hash) ops -> prop_set v (run_set v) = true.
 Proof.
-  intros v c ops hash Hd Hh. unfold prop_set, run_set. rewrite Hd.
+  intros v c ops hash Hd Hh. unfold prop_set, run_set, run_cfg. rewrite Hd.
   destruct (cfg_ok c) eqn:Eok; [|reflexivity].
   assert (Hc : 0 < cap c) by (unfold cfg_ok in Eok; lia).
-  pose proof (array_refines_set hash c ops Hc Hh) as Hr.
+  assert (Hn : 0 < hsz c) by (unfold cfg_ok, hsz in *; lia).
+  pose proof (array_refines_set hash c ops Hc Hn Hh) as Hr.
   destruct (run_ops c (init c) ops) as [s obs]. cbn [snd] in Hr. subst obs.
   unfold as_LZ, vLZ. rewrite all_some_map_Z. apply sp_check_run.
 Qed.
@@ -589,6 +593,6 @@ Qed.
 
 Lemma wf_C20_example :
   wf_C20 (VL [VZ 2; VZ 2; VZ 1; VZ 3; VL [VL [VZ 1; VB [1;1]; VZ 1]; VL [VZ 1; VB [1]; VZ 1]; VL [VZ 4];
-              VL [VZ 3; VB [1]; VZ 1]; VL [VZ 2; VB [1;1]; VZ 1]; VL [VZ 1; VB [0]; VZ 0]; VL [VZ 3; VB [1;1]; VZ 1]; VL [VZ 4]]]) = true
-  /\ wf_C20 (VL [VZ 2; VZ 2; VZ 1; VZ (-1); VL [VL [VZ 1; VZ 0; VB [1;1]]; VL [VZ 2; VZ 0]; VL [VZ 1; VZ 2; VB [1;1]]; VL [VZ 3]]]) = true.
+              VL [VZ 3; VB [1]; VZ 1]; VL [VZ 2; VB [1;1]; VZ 1]; VL [VZ 1; VB [0]; VZ 0]; VL [VZ 3; VB [1;1]; VZ 1]; VL [VZ 4]]; VZ 10]) = true
+  /\ wf_C20 (VL [VZ 2; VZ 2; VZ 1; VZ (-1); VL [VL [VZ 1; VZ 0; VB [1;1]]; VL [VZ 2; VZ 0]; VL [VZ 1; VZ 2; VB [1;1]]; VL [VZ 3]]; VZ 0]) = true.
 Proof. split; reflexivity. Qed.
